@@ -269,7 +269,9 @@ func (p *Parser) parsePosting() *ast.Posting {
 
 	if p.current.Type != TokenAccount {
 		p.error("expected account name")
-		p.skipToNextLine()
+		// Leave the line break to the posting loop, which consumes exactly
+		// one: the blank line that ends the transaction must stay.
+		p.skipToLineEnd()
 		return nil
 	}
 
@@ -663,7 +665,8 @@ func (p *Parser) parseSubdirectives() map[string]string {
 			name = p.current.Value
 			p.advance()
 		} else {
-			p.skipToNextLine()
+			// the loop consumes the line break itself
+			p.skipToLineEnd()
 			continue
 		}
 
@@ -824,6 +827,14 @@ func isValidTagName(name string) bool {
 
 func (p *Parser) advance() {
 	p.current = p.lexer.Next()
+}
+
+// skipToLineEnd skips the rest of the current line without consuming its line
+// break.
+func (p *Parser) skipToLineEnd() {
+	for p.current.Type != TokenNewline && p.current.Type != TokenEOF {
+		p.advance()
+	}
 }
 
 func (p *Parser) skipToNextLine() {
